@@ -177,6 +177,7 @@ func init() {
 	for _, n := range []string{"IteU8", "IteU32", "IteU64", "IteInt"} {
 		reg(n, func(fr *frame, a []Value) Value { return fr.e.tb.Ite(a[0].(*Term), a[1].(*Term), a[2].(*Term)) })
 	}
+	reg("PEMLen", func(fr *frame, a []Value) Value { fr.e.path.pemLen = int(concInt(a[0])); return nil })
 	reg("Symbolic", func(fr *frame, a []Value) Value { return fr.e.tb.T })
 	reg("Begin", func(fr *frame, a []Value) Value { fr.e.path.writeMark = len(fr.e.undo); return nil })
 	reg("Observe", func(fr *frame, a []Value) Value { return nil })
@@ -192,6 +193,11 @@ func init() {
 		n := x.Len
 		if !n.IsConst() {
 			n = y.Len
+		}
+		if !n.IsConst() && e.ropeEqual(x, y) {
+			// proved segment by segment (structural equality of the two byte strings)
+			e.stats.RopeHits++
+			return nil
 		}
 		if n.IsConst() && n.C <= 8192 {
 			// concrete length: compare position by position (most equalities fold away)
